@@ -10,6 +10,8 @@
 //   W                   wait for all children
 //   Y                   sleep 20 ms
 //   Q code              exit_group(code)
+//   D sel               load the data segment registers %ds and %es with selector sel (a program may load selectors,
+//                       e.g. 0x28 = the user data descriptor with RPL 0, that ptrace refuses to write back)
 // specials: @null @unmapped @kernel @odd @nonul<N> @edge$i @cross$i @wo$i @xo$i @how<flags>/<mode>/<resolve> @howbad @howshort
 // Built with: gcc -static -nostdlib -O1 -fno-stack-protector
 typedef unsigned long u64;
@@ -296,6 +298,11 @@ static void run(const char *p, int sub, long line) { // sub: 0 main, 1 process s
       break;
     }
     case 'Q': SC(NR_exit_group, parse_int(a, 0), 0, 0); break;
+    case 'D': {
+      u64 sel = (u64)parse_int(a, 0);
+      __asm__ volatile("mov %0,%%ds\n\tmov %0,%%es" : : "r"((unsigned short)sel));
+      break;
+    }
     }
     p = next_line(p);
   }
